@@ -3,6 +3,8 @@ package main
 import (
 	"fmt"
 	"go/ast"
+	"go/token"
+	"go/types"
 	"strings"
 )
 
@@ -15,14 +17,10 @@ func (w *World) moduleOrder(fnName string) ([]string, string) {
 	for _, f := range p.Syntax {
 		for _, decl := range f.Decls {
 			fd, ok := decl.(*ast.FuncDecl)
-			if !ok || fd.Body == nil || fd.Name.Name != fnName || len(fd.Body.List) != 1 {
+			if !ok || fd.Body == nil || fd.Name.Name != fnName {
 				continue
 			}
-			rs, ok := fd.Body.List[0].(*ast.ReturnStmt)
-			if !ok || len(rs.Results) != 1 {
-				continue
-			}
-			cl, ok := rs.Results[0].(*ast.CompositeLit)
+			cl, ok := singleReturnExpr(p.TypesInfo, fd).(*ast.CompositeLit)
 			if !ok {
 				continue
 			}
@@ -68,4 +66,40 @@ func (r *Report) OrderBefore(key, fnName, first, then, why string) {
 	default:
 		r.Bad(k, d, pos, fmt.Sprintf("%s is at position %d, after %s at %d", first, i, then, j))
 	}
+}
+
+// singleReturnExpr: the expression e of a function whose whole body is `return e`, or `t := e; return t` /
+// `var t = e; return t` with t a local defined by that statement (a temporary defined once and returned at once
+// denotes the same value); nil for every other body.
+func singleReturnExpr(info *types.Info, fd *ast.FuncDecl) ast.Expr {
+	if fd == nil || fd.Body == nil || len(fd.Body.List) < 1 || len(fd.Body.List) > 2 {
+		return nil
+	}
+	rs, ok := fd.Body.List[len(fd.Body.List)-1].(*ast.ReturnStmt)
+	if !ok || len(rs.Results) != 1 {
+		return nil
+	}
+	ret := ast.Unparen(rs.Results[0])
+	if len(fd.Body.List) == 1 {
+		return ret
+	}
+	id, ok := ret.(*ast.Ident)
+	if !ok || info.Uses[id] == nil {
+		return nil
+	}
+	switch st := fd.Body.List[0].(type) {
+	case *ast.AssignStmt:
+		if st.Tok == token.DEFINE && len(st.Lhs) == 1 && len(st.Rhs) == 1 {
+			if l, ok := st.Lhs[0].(*ast.Ident); ok && info.Defs[l] == info.Uses[id] {
+				return ast.Unparen(st.Rhs[0])
+			}
+		}
+	case *ast.DeclStmt:
+		if gd, ok := st.Decl.(*ast.GenDecl); ok && gd.Tok == token.VAR && len(gd.Specs) == 1 {
+			if vs, ok := gd.Specs[0].(*ast.ValueSpec); ok && len(vs.Names) == 1 && len(vs.Values) == 1 && info.Defs[vs.Names[0]] == info.Uses[id] {
+				return ast.Unparen(vs.Values[0])
+			}
+		}
+	}
+	return nil
 }
